@@ -457,6 +457,9 @@ class Interp:
                 return obj.annotations
             if name in obj.attrs:
                 return obj.attrs[name]
+            props = obj.attrs.get("__props__")
+            if props and name in props:
+                return props[name]()
             raise Raised("AttributeError", node)
         if isinstance(obj, NewType):
             if name == "__name__":
@@ -735,6 +738,8 @@ class Interp:
                     return _View([(k, v) for k, v in obj.items()])
                 if m == "get":
                     return obj.get(args[0], args[1] if len(args) > 1 else None)
+                if m == "setdefault" and 1 <= len(args) <= 2:
+                    return obj.setdefault(args[0], args[1] if len(args) > 1 else None)
             if isinstance(obj, SymBin) and m == "zfill" and len(args) == 1 and isinstance(args[0], int):
                 w = args[0]
                 if any(b != 0 for b in obj.vec.bits[w:]):
@@ -888,3 +893,61 @@ class _View:
 
     def __init__(self, items):
         self.items = items
+
+
+def bind_project(it, project, mod, g, depth=0):
+    """make the project functions and classes that module `mod` imports by name callable in the interpreter `it` (they are
+    evaluated from their source; memoising decorators are identities; a class is instantiated by running its __init__ on a
+    fresh object, its methods and properties are bound to that object).  Names already in `g` (the harness stubs) win; the
+    top-level definitions of a module something was taken from are registered as well (its functions refer to them)."""
+    def memo_only(decs):
+        return all(norm(d.func if isinstance(d, ast.Call) else d).split(".")[-1] in ("lru_cache", "cache") for d in decs)
+
+    def register(name, node, home):
+        if name in g:
+            return
+        if isinstance(node, ast.FunctionDef) and memo_only(node.decorator_list):
+            g[name] = (lambda f_: lambda *a, **kw: it.call(f_, list(a), kw))(node)
+        elif isinstance(node, ast.ClassDef) and not node.decorator_list:
+            def make(*a, _c=node, **kw):
+                inst = TypeRef(f"<{_c.name} object>", attrs={})
+                props = {}
+                for m in _c.body:
+                    if not isinstance(m, ast.FunctionDef):
+                        continue
+                    decs = [norm(d) for d in m.decorator_list]
+                    if decs == ["property"]:
+                        props[m.name] = (lambda f_: lambda: it.call(f_, [inst]))(m)
+                    elif not decs and m.name != "__init__":
+                        inst.attrs[m.name] = (lambda f_: lambda *a2, **kw2: it.call(f_, [inst] + list(a2), kw2))(m)
+                inst.attrs["__props__"] = props
+                init = next((m for m in _c.body if isinstance(m, ast.FunctionDef) and m.name == "__init__"), None)
+                if init is not None:
+                    it.call(init, [inst] + list(a), kw)
+                return inst
+            g[name] = make
+        else:
+            return
+        if depth < 2 and home is not None:
+            for st in home.tree.body:
+                if isinstance(st, (ast.FunctionDef, ast.ClassDef)):
+                    register(st.name, st, None)
+            bind_project(it, project, home, g, depth + 1)
+
+    for nm_ in list(mod.import_bindings()):
+        if nm_ in g:
+            continue
+        r_ = project.resolve_name(mod, nm_)
+        if not (r_ and r_[1]):
+            continue
+        node = next((x for x in r_[0].tree.body if isinstance(x, (ast.FunctionDef, ast.ClassDef)) and x.name == r_[1]), None)
+        if node is not None:
+            if nm_ != r_[1]:
+                tmp = {}
+                g_saved = g.get(r_[1])
+                register(r_[1], node, r_[0])
+                if r_[1] in g:
+                    g[nm_] = g[r_[1]]
+            else:
+                register(nm_, node, r_[0])
+    it.globals.update(g)
